@@ -797,6 +797,7 @@ func (vc *VC) execTypeSwitch(st *State, x *ast.TypeSwitchStmt) []Outcome {
 // ---------------------------------------------------------------- loops
 
 type modSet struct {
+	leaves map[types.Object]map[string]bool // struct variables: which leaves changed
 	env   map[types.Object]bool
 	comps map[string]bool
 	all   bool
@@ -826,7 +827,7 @@ func (vc *VC) dryExec(st *State, run func(s *State) []Outcome) []Outcome {
 
 // dryRun executes body once on a clone (obligations discarded) to learn what it may modify.
 func (vc *VC) dryRun(st *State, run func(s *State) []Outcome) modSet {
-	ms := modSet{env: map[types.Object]bool{}, comps: map[string]bool{}}
+	ms := modSet{env: map[types.Object]bool{}, comps: map[string]bool{}, leaves: map[types.Object]map[string]bool{}}
 	outs := vc.dryExec(st, run)
 	for _, o := range outs {
 		if o.st.epoch != st.epoch {
@@ -836,6 +837,12 @@ func (vc *VC) dryRun(st *State, run func(s *State) []Outcome) modSet {
 			if ov, ok := st.env[obj]; ok && ov != v {
 				if !sameValue(ov, v) {
 					ms.env[obj] = true
+					if ov.K == VStruct && v.K == VStruct {
+						if ms.leaves[obj] == nil {
+							ms.leaves[obj] = map[string]bool{}
+						}
+						changedLeaves(ov, v, "", ms.leaves[obj])
+					}
 				}
 			}
 		}
@@ -934,6 +941,38 @@ func (vc *VC) loopFrame(pre, h *State, ms modSet, f1, e1 int, run func(s *State)
 	return framed
 }
 
+// changedLeaves records the paths of the leaves in which a and b differ.
+func changedLeaves(a, b *Value, path string, out map[string]bool) {
+	if a == nil || b == nil || a.K != b.K {
+		out[path] = true
+		return
+	}
+	if a.K == VStruct {
+		for _, f := range a.FOrder {
+			changedLeaves(a.Fields[f], b.Fields[f], path+"."+f, out)
+		}
+		return
+	}
+	if !sameValue(a, b) {
+		out[path] = true
+	}
+}
+
+// keepUnchangedLeaves: fresh where the leaf (or an enclosing path) changed, old elsewhere.
+func keepUnchangedLeaves(old, fresh *Value, path string, changed map[string]bool) *Value {
+	if changed[path] {
+		return fresh
+	}
+	if old.K == VStruct && fresh.K == VStruct {
+		n := &Value{K: VStruct, T: old.T, Fields: map[string]*Value{}, FOrder: old.FOrder}
+		for _, f := range old.FOrder {
+			n.Fields[f] = keepUnchangedLeaves(old.Fields[f], fresh.Fields[f], path+"."+f, changed)
+		}
+		return n
+	}
+	return old
+}
+
 func sameValue(a, b *Value) bool {
 	if a.K != b.K {
 		return false
@@ -966,6 +1005,9 @@ func (vc *VC) havocMods(st *State, ms modSet) {
 			}
 			nv := vc.freshValue(st, obj.Name(), T)
 			nv.Fn = nil
+			if old.K == VStruct && ms.leaves[obj] != nil {
+				nv = keepUnchangedLeaves(old, nv, "", ms.leaves[obj])
+			}
 			st.env[obj] = nv
 		}
 	}
@@ -1009,7 +1051,7 @@ func (vc *VC) loopSpec(n ast.Node) (*LoopSpec, int) {
 		vc.loopOrd++
 		return nil, 1000 + vc.loopOrd
 	}
-	if vc.inlineDepth > 0 || vc.contract == nil {
+	if vc.contract == nil {
 		return nil, ord
 	}
 	return vc.contract.Loops[ord], ord
@@ -1052,7 +1094,7 @@ func (vc *VC) execFor(st *State, x *ast.ForStmt, label string) []Outcome {
 func (vc *VC) loopCommon(st *State, lc loopCtx, atHead func(s *State), cond func(s *State) string,
 	body func(s *State) []Outcome, post func(s *State), implicitInv func(s *State) string) []Outcome {
 
-	if vc.inlineDepth > 0 {
+	if vc.inlineDepth > 0 && lc.ord >= 1000 {
 		vc.unsupported(nil, "loop in inlined callee (needs a contract)")
 	}
 	// 1. what does an iteration modify?
@@ -1090,7 +1132,7 @@ func (vc *VC) loopCommon(st *State, lc loopCtx, atHead func(s *State), cond func
 	}
 	// the function's frame is an implicit invariant of every loop: cells of objects allocated at function entry
 	// and not named by `modifies` still have their entry value (holds before the loop by the code so far)
-	useFrameInv := vc.contract != nil && vc.contract.HasMod && !ms.all && vc.inlineDepth == 0 && st.epoch == 0
+	useFrameInv := vc.contract != nil && vc.contract.HasMod && !ms.all && st.epoch == 0
 	// 3. arbitrary iteration
 	h := st.clone()
 	f1, e1 := vc.nfresh, vc.nepoch
